@@ -29,6 +29,23 @@ type Scenario struct {
 	Weight      int // share of the time budget (default 1)
 }
 
+// WithPlainPoints returns the scenario with writes to plain shared memory as
+// scheduling points (see PlainPoints) and the happens-before memo off (plain
+// memory is not part of its key).
+func (sc Scenario) WithPlainPoints(bound int) Scenario {
+	prev := sc.Setup
+	sc.Name += "/plain-memory-writes-are-scheduling-points"
+	sc.Memo = false
+	sc.Bound = bound
+	sc.Setup = func() {
+		if prev != nil {
+			prev()
+		}
+		PlainPoints = true
+	}
+	return sc
+}
+
 type scenarioReport struct {
 	Name     string     `json:"name"`
 	Policy   string     `json:"policy"`
@@ -131,6 +148,7 @@ func runScenario(sc Scenario, deadline time.Time, si, sn int) scenarioReport {
 	if sc.Delay {
 		r.Policy = "delay"
 	}
+	ExtCalls, PlainPoints = false, false
 	if sc.Setup != nil {
 		sc.Setup()
 	}
@@ -215,6 +233,7 @@ func doReplay(path string, gen func(string) []Scenario) int {
 			if sc.Name != f.Scenario {
 				continue
 			}
+			ExtCalls, PlainPoints = false, false
 			if sc.Setup != nil {
 				sc.Setup()
 			}
